@@ -436,7 +436,8 @@ func (g *VerifC08Gen) Next(proto string, sizes []uint16, cfg int) (c VerifC08Cas
 		c.Req.KA = r.Intn(3) == 0 || (katr && r.Intn(2) == 0)
 		c.Req.NSID = r.Intn(3) == 0
 		if c.Req.NSID && r.Intn(4) == 0 {
-			c.Req.NSIDLen = 4
+			// a query's NSID option is empty; some carry data nevertheless
+			c.Req.NSIDLen = []int{4, 4, 4, 600}[r.Intn(4)]
 		}
 		if c.Req.Pad {
 			c.Req.PadLen = []int{0, 1, 31, 100}[r.Intn(4)]
